@@ -335,15 +335,16 @@ func runE2E(k int, sc Scn, r *vh.Rand) (res Res) {
 		if lsnClosed {
 			reachable = false
 		}
-	}
-	// a client that calls back and finds the listener gone gives up after maxErrors failed
-	// connects (the model's "eventually"): give it the time before the final observation
-	if c != nil && lsnClosed && sc.Cbk && !clientClosed {
-		if !waitCh(c.Done(), 3*time.Second) {
-			res.NoCompare = true
-			res.Obs = append(res.Obs, "the client had not given up 3 s after the listener was closed (trace not compared)")
-		} else {
-			quiesce(c, ss, srv, l, time.Duration(20*sc.SleepMs)*time.Millisecond, 2*time.Second)
+		// a client that calls back and finds the listener gone gives up after maxErrors failed
+		// connects (the model's "eventually"): give it the time before the next phase / the
+		// final observation
+		if c != nil && lsnClosed && sc.Cbk && !res.NoCompare {
+			if !waitCh(c.Done(), 3*time.Second) {
+				res.NoCompare = true
+				res.Obs = append(res.Obs, "the client had not given up 3 s after the listener was closed (trace not compared)")
+			} else {
+				quiesce(c, ss, srv, l, time.Duration(20*sc.SleepMs)*time.Millisecond, 2*time.Second)
+			}
 		}
 	}
 	// ---- what the property promises, evaluated on the implementation
